@@ -221,9 +221,18 @@ func genFragmentation(ctx *Ctx, emit func(Case)) {
 			}})
 	}
 	// (d) the plaintext bufferers of the three encoder streams: any split = one shot; bounded buffer
-	splits := [][]int{{0}, {1}, {mib}, {mib + 1}, {mib - 1, 1}, {mib - 1, 1, 1}, {mib, 0, 1}, {1, mib}, {0, 0, mib, 0, mib, 0}, {2*mib + 1}, {mib / 2, mib / 2, mib / 2, mib / 2, 1}, {3 * mib}}
+	splits := [][]int{{0}, {1}, {mib}, {mib + 1}, {mib - 1, 1}, {mib - 1, 1, 1}, {mib, 0, 1}, {1, mib}, {13, mib + 1}, {mib - 1, mib + 2}, {5, 2*mib + 5, 3},
+		{0, 0, mib, 0, mib, 0}, {2*mib + 1}, {mib / 2, mib / 2, mib / 2, mib / 2, 1}, {3 * mib}, {1, 3 * mib}, {mib + 1, mib - 1, 1}}
 	if ctx.Quick {
-		splits = splits[:8]
+		splits = splits[:11]
+	}
+	// random splits: a few pending bytes, then writes around multiples of the block size
+	for k := 0; k < ctx.N(3, 12); k++ {
+		var sp []int
+		for j := 0; j < 2+r.Intn(3); j++ {
+			sp = append(sp, prng.Pick(r, 0, 1, r.Intn(40), mib/2+r.Intn(9), mib-1+r.Intn(3), mib+r.Intn(30), 2*mib-1+r.Intn(3)))
+		}
+		splits = append(splits, sp)
 	}
 	for _, kind := range []string{"sig", "enc", "sc"} {
 		for ma := 1; ma <= 2; ma++ {
